@@ -349,3 +349,19 @@ func intKeys(n int) []Val {
 	}
 	return ks
 }
+
+// k4Cache steers a configuration away from known finding K4 (dependency bug:
+// with a node cache, an INSERT below an absent child link mutates the cached
+// shared node in place and corrupts the table). The trigger needs a tree with
+// more than one node, which needs at least entries_per_node rows: where that
+// is possible the case runs without the cache, and the exclusion is counted.
+func k4Cache(epn, maxRows, cache int, o *Obs) int {
+	if epn == 0 {
+		epn = 4096
+	}
+	if cache > 0 && maxRows >= epn {
+		o.Exclude("K4-node-cache-on-multi-node-tree")
+		return 0
+	}
+	return cache
+}
